@@ -102,6 +102,7 @@ class Interp:
         self.max_paths = max_paths
         self.intrinsics = intrinsics or {}   # qualname -> callable(interp, args, kwargs, node)
         self.opaque_funcs = set()            # qualnames never inlined (always opaque Sym call)
+        self.opaque_summaries = {}           # qualname -> {"exc": ExcVal}: per-character string functions
         self.lift_cap = 4096
         self.depth = 0
         self.max_depth = 40
@@ -296,6 +297,20 @@ class Interp:
                 del self.assumptions[mark_asm:]
                 self.event("opaque_call", func=q, args=args, node=node, why=str(e), where=self._where(node),
                            snapshot=self.theory.snapshot(), caller=getattr(self.cur_frame.func, "short", None))
+                summ = self.opaque_summaries.get(q)
+                if summ is not None and len(args) == 1:
+                    a0 = ops.strval(args[0])
+                    if isinstance(a0, SStr):
+                        ok = True if summ["exc"] is None else self.truth(Sym("strsafe", q, a0), node)
+                        if not ok:
+                            exc = summ["exc"]
+                            ev = ExcVal(exc.cls, exc.args, exc.node, exc.where)
+                            ev.func = func.short
+                            self.event("partial", exc=ev.name, node=ev.node, what=f"call of {func.short} on a text with a character it rejects",
+                                       certain=True, where=ev.where, func=func.short, excval=ev)
+                            raise Raised(ev)
+                elif summ is None:
+                    self.event("unsummarised_opaque", func=q, where=self._where(node))
                 return Sym("call", q, tuple(ops.freeze(a) for a in args))
             raise
 
@@ -432,6 +447,9 @@ class Interp:
 
     def instantiate(self, cls, args, kwargs, node):
         prog = self.program
+        hook = self.intrinsics.get("new:" + cls.qualname)
+        if hook is not None:
+            return hook(self, args, kwargs, node)
         if ops.is_dataclass(cls):
             return ops.make_dataclass(self, cls, args, kwargs, node)
         exts = cls.ext_bases(prog)
